@@ -1,4 +1,5 @@
 import Yuiv.Proofs.C10
+import Yuiv.Proofs.C10Q
 /-
 C10 — LLL and LLL-based Hermite normal form return unimodular, reduced results.
 
@@ -50,6 +51,9 @@ theorem isLLLReduced_sound (m n : Nat) (B : Mat) (p q : Int) (h : isLLLReduced m
   unfold isLLLReduced at h
   exact ⟨_, _, reducedWith_sound m n B p q _ _ h⟩
 
+example : isLLLReduced 3 3 #[#[0, 1, -1], #[1, 0, -1], #[1, 1, 1]] 3 4 = true := by decide +kernel
+example : isLLLReduced 2 2 #[#[1, 0], #[1, 1]] 3 4 = false := by decide +kernel
+
 /-! ### (b) the transform invariant on every control path -/
 
 /-- one primitive keeps the invariant -/
@@ -84,5 +88,98 @@ theorem lll_transform_inv_matrix (m n : Nat) (A : Mat) (ops : List Prim) (t : Tr
   exact ⟨e1, e2, Matrix.isUnit_det_of_right_inverse e2⟩
 
 example : ((Tr.init 2 2 #[#[0, 1], #[-1, 0]]).run [.swap 0 1, .mul 0 (-1), .add 0 1 5]).isOk = true := by decide
+
+/-! ### (c) the literal model of `LLLCalc` / `LLLHNFCalc` (the one the driver runs against the real code) -/
+
+/-- whatever `lll_hnf` (model, any fuel) returns was produced from `(A, I, I)` by row primitives only -/
+theorem lllHnf_model_trace (fuel m n : Nat) (A : Mat) (t : Tr) (h : lllHnf fuel m n A = ok t) :
+    ∃ ops : List Prim, (Tr.init m n A).run ops = ok t := lllHnf_reach fuel m n A t h
+
+theorem lll_model_trace (fuel m n : Nat) (A : Mat) (d : Data) (h : lll fuel m n A = ok d) :
+    ∃ ops : List Prim, (Tr.init m n A).run ops = ok d.tr := lll_reach fuel m n A d h
+
+/-- on every control path of the Hermite routine that returns: `H = P·A`, `P·P⁻¹ = I`, `P` unimodular -/
+theorem lllHnf_model_transform (fuel m n : Nat) (A : Mat) (t : Tr) (h : lllHnf fuel m n A = ok t) :
+    toMatrix m m t.p * toMatrix m n A = toMatrix m n t.target ∧
+    toMatrix m m t.p * toMatrix m m t.pinv = 1 ∧ IsUnit (toMatrix m m t.p).det := by
+  obtain ⟨ops, hops⟩ := lllHnf_reach fuel m n A t h
+  exact lll_transform_inv_matrix m n A ops t hops
+
+/-- on every control path of the LLL routine that returns: `B = P·A`, `P` unimodular -/
+theorem lll_model_transform (fuel m n : Nat) (A : Mat) (d : Data) (h : lll fuel m n A = ok d) :
+    toMatrix m m d.tr.p * toMatrix m n A = toMatrix m n d.tr.target ∧
+    toMatrix m m d.tr.p * toMatrix m m d.tr.pinv = 1 ∧ IsUnit (toMatrix m m d.tr.p).det := by
+  obtain ⟨ops, hops⟩ := lll_reach fuel m n A d h
+  exact lll_transform_inv_matrix m n A ops d.tr hops
+
+example : (lllHnf 100 2 2 #[#[0, 1], #[-1, 0]]).isOk = true := by decide
+example : (lll 100 2 2 #[#[2, 0], #[1, 1]]).isOk = true := by decide
+
+/-! ### (d) the exact nearest-integer quotient behind size reduction -/
+
+/-- `div_round` (model of the exact integer version in `int_ext.rs`) panics only on a zero divisor and otherwise
+returns a nearest integer: `2·|a − q·b| ≤ |b|`.  Hence `reduce(i,k)` leaves `|μ_ki| ≤ 1/2` and the Hermite `reduce`
+leaves an entry of absolute value `≤ |pivot|/2 < |pivot|` above the pivot. -/
+theorem divRound_spec (a b q : Int) (h : divRound a b = ok q) : b ≠ 0 ∧ 2 * (a - q * b).natAbs ≤ b.natAbs :=
+  divRound_spec' a b q h
+
+theorem divRound_total (a b : Int) (hb : b ≠ 0) : ∃ q, divRound a b = ok q := by
+  unfold divRound
+  rw [if_neg hb]
+  dsimp only
+  generalize (if 0 < a.tmod b then -a.tmod b else a.tmod b) = nr
+  generalize (if 0 < b then -b else b) = nb
+  split
+  · split <;> exact ⟨_, rfl⟩
+  · exact ⟨_, rfl⟩
+
+example : divRound (3 * (2 ^ 53 + 1)) 3 = ok (2 ^ 53 + 1) := by decide
+example : divRound (-13) 5 = ok (-3) := by decide
+
+/-! ### (e) the checkers over ℤ[i] and ℤ[ω] (ring `ZK k` = Mathlib's `QuadraticAlgebra ℤ u v`, θ² = u + vθ;
+`Q.gauss = ⟨-1, 0⟩`, `Q.eisen = ⟨-1, 1⟩`) -/
+
+open Q in
+/-- `transformOkQ` decides `P·A = B ∧ P·P⁻¹ = I` over ℤ[θ] -/
+theorem transformOkQ_iff (k : QK) (m n : Nat) (A B P Pinv : MatQ) :
+    transformOkQ k m n A B P Pinv = true ↔
+      toMatrixQ k m m P * toMatrixQ k m n A = toMatrixQ k m n B ∧ toMatrixQ k m m P * toMatrixQ k m m Pinv = 1 := by
+  rw [transformOkQ, Bool.and_eq_true, mulEqQ_iff, mulEqQ_iff]
+  have e : (fun i j => toZ k (if i.val = j.val then ((1 : Int), (0 : Int)) else (0, 0)) : Matrix (Fin m) (Fin m) (ZK k))
+      = (1 : Matrix (Fin m) (Fin m) (ZK k)) := by
+    apply Matrix.ext
+    intro i j
+    rw [Matrix.one_apply]
+    by_cases h : i = j
+    · subst h; simp [toZ_one]
+    · have : i.val ≠ j.val := fun h' => h (Fin.ext h')
+      simp [this, h, toZ_zero]
+  rw [e]
+  rfl
+
+open Q in
+theorem transformOkQ_unimodular (k : QK) (m n : Nat) (A B P Pinv : MatQ) (h : transformOkQ k m n A B P Pinv = true) :
+    IsUnit (toMatrixQ k m m P).det :=
+  Matrix.isUnit_det_of_right_inverse ((transformOkQ_iff k m n A B P Pinv).mp h).2
+
+open Q in
+/-- `isHnfQ` accepts only echelon forms with pivots in the normalised sector (`re > 0`, `im ≥ 0`), zeros below each
+pivot and entries of strictly smaller norm above -/
+theorem isHnfQ_sound (k : QK) (m n : Nat) (H : MatQ) (h : isHnfQ k m n H = true) :
+    IsHnfQ k m n (fun i j => toZ k (entq H i j)) (leadColQ n H) := isHnfQ_sound' k m n H h
+
+open Q in
+/-- `isLLLReducedQ` accepts only bases with `N(μ_ij) ≤ rp/rq` and the Lovász condition for `p/q` w.r.t. a
+Hermitian Gram–Schmidt decomposition over ℚ(θ) whose defining equations are re-checked -/
+theorem isLLLReducedQ_sound (k : QK) (m n : Nat) (B : MatQ) (p q rp rq : Int)
+    (h : isLLLReducedQ k m n B p q rp rq = true) :
+    IsLLLReducedQ k m n (fun i c => toZ k (entq B i c)) ((p : ℚ) / (q : ℚ)) ((rp : ℚ) / (rq : ℚ)) := by
+  unfold isLLLReducedQ at h
+  exact ⟨_, _, reducedWithQ_sound k m n B p q rp rq _ _ h⟩
+
+example : Q.transformOkQ Q.gauss 1 1 #[#[(0, -1)]] #[#[(1, 0)]] #[#[(0, 1)]] #[#[(0, -1)]] = true := by decide
+example : Q.isHnfQ Q.eisen 2 2 #[#[(2, 1), (1, 0)], #[(0, 0), (3, 0)]] = true := by decide
+example : Q.isHnfQ Q.gauss 1 1 #[#[(0, 1)]] = false := by decide
+example : Q.isLLLReducedQ Q.gauss 2 2 #[#[(1, 0), (0, 0)], #[(0, 0), (0, 1)]] 3 4 1 2 = true := by decide +kernel
 
 end Yuiv.C10
